@@ -80,7 +80,9 @@ def main():
         rec['apply_error'] = o[-500:]
     else:
         try:
-            rc, o = sh(f'./check {" ".join(props) if len(props) == 1 else "all"} 2>&1', cwd=VERIF, timeout=7200)
+            # evidence of runs on a patched tree must not overwrite the committed evidence
+            rc, o = sh(f'PYVC_EVIDENCE_DIR=/tmp/seeded_evidence ./check {" ".join(props) if len(props) == 1 else "all"} 2>&1',
+                       cwd=VERIF, timeout=7200)
             lines = [l for l in o.splitlines() if l.startswith(('VIOLATION', 'UNDECIDED', 'CHECKER', 'KNOWN')) or 'discharged' in l]
             if len(props) > 1:
                 lines = [l for l in lines if any(p in l for p in props)]
